@@ -4,24 +4,74 @@
 package fs
 
 import (
+	"fmt"
 	"os"
+	"sync/atomic"
 	"syscall"
 )
 
+var lockFileCounter uint32
+
+func flockNonBlocking(f *os.File) error {
+	err := syscall.Flock(int(f.Fd()), syscall.LOCK_EX|syscall.LOCK_NB)
+	if err == syscall.EWOULDBLOCK {
+		err = os.ErrExist
+	}
+	return err
+}
+
+// createLockFile acquires the lock file. The second result tells whether the file was left behind
+// by a holder that did not release it (a holder removes the file before it releases the lock).
 func createLockFile(name string, perm os.FileMode) (LockFile, bool, error) {
-	acquiredExisting := false
-	if _, err := os.Stat(name); err == nil {
-		acquiredExisting = true
-	}
-	f, err := os.OpenFile(name, os.O_RDWR|os.O_CREATE, perm)
-	if err != nil {
-		return nil, false, err
-	}
-	if err := syscall.Flock(int(f.Fd()), syscall.LOCK_EX|syscall.LOCK_NB); err != nil {
-		if err == syscall.EWOULDBLOCK {
-			err = os.ErrExist
+	for {
+		// The file exists: its holder is alive (the lock is taken) or did not release it.
+		f, err := os.OpenFile(name, os.O_RDWR, perm)
+		if err == nil {
+			if err := flockNonBlocking(f); err != nil {
+				_ = f.Close()
+				return nil, false, err
+			}
+			// The holder may have removed the file and released the lock since it was opened here:
+			// the lock counts only if the path still names the locked file.
+			locked, err := f.Stat()
+			if err != nil {
+				_ = f.Close()
+				return nil, false, err
+			}
+			if current, err := os.Stat(name); err == nil && os.SameFile(locked, current) {
+				return &osLockFile{f, name}, true, nil
+			}
+			_ = f.Close()
+			continue
 		}
-		return nil, false, err
+		if !os.IsNotExist(err) {
+			return nil, false, err
+		}
+		// The file doesn't exist: create it under a temporary name, lock it and only then make
+		// it visible, so that nobody can find it unlocked and take it for a left-over.
+		tmpName := fmt.Sprintf("%s.%d.%d", name, os.Getpid(), atomic.AddUint32(&lockFileCounter, 1))
+		f, err = os.OpenFile(tmpName, os.O_RDWR|os.O_CREATE|os.O_EXCL, perm)
+		if os.IsExist(err) {
+			continue
+		}
+		if err != nil {
+			return nil, false, err
+		}
+		if err := flockNonBlocking(f); err != nil {
+			_ = f.Close()
+			_ = os.Remove(tmpName)
+			return nil, false, err
+		}
+		err = os.Link(tmpName, name)
+		_ = os.Remove(tmpName)
+		if err == nil {
+			return &osLockFile{f, name}, false, nil
+		}
+		_ = f.Close()
+		if !os.IsExist(err) && !os.IsNotExist(err) {
+			return nil, false, err
+		}
+		// Somebody else created the file in between, or a recovering holder moved the
+		// temporary file away with the other non-segment files: look again.
 	}
-	return &osLockFile{f, name}, acquiredExisting, nil
 }
